@@ -542,9 +542,15 @@ func pickStr(rng *prng.R, xs ...string) string { return xs[rng.Intn(len(xs))] }
 
 var focusFid int64 = -1
 
+// fids currently in the session's table (locked ones twice): where the contention is
+var hotFids []int64
+
 func pickFid(rng *prng.R) int64 {
 	if focusFid >= 0 && rng.Chance(7, 10) {
 		return focusFid
+	}
+	if len(hotFids) > 0 && rng.Chance(1, 2) {
+		return hotFids[rng.Intn(len(hotFids))]
 	}
 	switch x := rng.Intn(40); {
 	case x == 0:
@@ -860,7 +866,7 @@ func runCase(rng *prng.R) caseResult {
 	if rng.Chance(1, 2) {
 		focusFid = int64(rng.Intn(3))
 	}
-	defer func() { focusFid = -1 }()
+	defer func() { focusFid = -1; hotFids = nil }()
 	errp := rng.Pick(5, 20, 40)
 	startedConc := 0
 	// one case in six is a directed race on one fid (the rest of the schedule stays random)
@@ -915,6 +921,16 @@ func runCase(rng *prng.R) caseResult {
 						pending[f] = true
 					}
 				}
+			}
+			hotFids = hotFids[:0]
+			if tab, ok := p9p.VerifFidTable(sess); ok { // TryLock only: safe while operations are parked
+				for _, e := range tab {
+					hotFids = append(hotFids, int64(e.Fid))
+					if e.Locked {
+						hotFids = append(hotFids, int64(e.Fid))
+					}
+				}
+				sort.Slice(hotFids, func(i, j int) bool { return hotFids[i] < hotFids[j] })
 			}
 			var o opDesc
 			for try := 0; ; try++ {
